@@ -175,7 +175,7 @@ func recordingFinalName(filename string) string {
 }
 
 func deleteTempFiles(directory string) error {
-	matches, _ := filepath.Glob(filepath.Join(directory, "*."+cptvTempExt))
+	matches, _ := filepath.Glob(filepath.Join(directory, "*."+cptvTempExt+"*"))
 	for _, filename := range matches {
 		if err := os.Remove(filename); err != nil {
 			return err
